@@ -695,6 +695,96 @@ def lifecycle_stage(ctx):
     ctx.cov["traces_validated_against_impl"] += len(REAL_SUITES)
 
 
+SPY_SUITES = ["spy-ed25519", "spy-ed448", "spy-p256", "spy-ristretto255", "spy-secp256k1"]
+
+
+def spy_stage(ctx, n_quick=60, n_thorough=600):
+    """C02/C15: the structures of the model's behaviours run on Spy<C> (real arithmetic, logged hash
+    queries); TLC checks the byte structure of every preimage (spec/trace/TraceSpy.tla)."""
+    import random
+    structs, seen = [], set()
+    for f in ctx.struct_files:
+        if os.path.exists(f):
+            for line in open(f):
+                line = line.strip()
+                if line and line not in seen:
+                    seen.add(line)
+                    structs.append(line)
+    rnd = random.Random(ctx.seed + 17)
+    n = n_thorough if ctx.tier == "thorough" else n_quick
+    # prefer the larger signer sets (list order matters from four signers on)
+    structs.sort(key=lambda s: -s.count('"op":"commit"'))
+    head = structs[: n // 2]
+    rest = structs[n // 2:]
+    structs = head + (rnd.sample(rest, min(len(rest), n - len(head))) if rest else [])
+    d = os.path.join(ctx.dir, "spy")
+    os.makedirs(d, exist_ok=True)
+    sp = os.path.join(d, "structs.ndjson")
+    open(sp, "w").write("\n".join(structs) + "\n")
+    total = runs = 0
+    modes = ["big", "derive", "u16mul", "plain", "derive"]
+    for si, suite in enumerate(SPY_SUITES):
+        for mode in ([modes[si], "derive"] if ctx.tier == "quick" else ["big", "derive", "u16mul", "plain"]):
+            ep = os.path.join(d, f"{suite}-{mode}.ndjson")
+            rc, o, e = sh(f"{FV} run --suite {suite} --seed {ctx.seed * 5 + si} --id-mode {mode} --events {ep} < {sp}", cwd=d, timeout=1800)
+            summ = [json.loads(l[8:]) for l in o.splitlines() if l.startswith("SUMMARY ")]
+            if rc != 0 or not summ or summ[0]["script_errors"]:
+                raise ToolError(f"fv run failed for {suite}: {o[-400:]} {e[-400:]}")
+            n_ev, bad = run_trace_tlc(d, "TraceSpy", ep)
+            ev = load_events(ep)
+            total += n_ev
+            runs += summ[0]["scripts"]
+            seenk = set()
+            for (line, op, law) in bad:
+                key = f"{ctx.pid}:spy:{op}:{law}"
+                if key in seenk:
+                    continue
+                seenk.add(key)
+                x = ev[line - 1]
+                j = line - 1
+                while j >= 0 and ev[j].get("op") != "reset":
+                    j -= 1
+                sidx = ev[j].get("script") if j >= 0 else None
+                ctx.violation(key, f"{suite} ({mode} identifiers): {op}: {law}: queries {json.dumps(x.get('queries'))[:400]}",
+                              replay_obj={"suite": suite, "id_mode": mode, "seed": ctx.seed * 5 + si, "law": law, "event": x,
+                                          "script": json.loads(structs[sidx - 1]) if sidx else None})
+            os.remove(ep)
+    log(f"[{ctx.pid}] spy suites: {runs} scenario runs, {total} events validated against TraceSpy")
+    ctx.cov["trace_events_validated"] += total
+    ctx.cov["traces_validated_against_impl"] += runs
+    ctx.cov["spy_runs"] = runs
+
+
+def interop_stage(ctx):
+    d = os.path.join(ctx.dir, "interop")
+    os.makedirs(d, exist_ok=True)
+    count = 400 if ctx.tier == "thorough" else 60
+    total = 0
+    jobs = [("toy", 7), ("toy", 251), ("toy", 257)] + [(s, None) for s in REAL_SUITES]
+    for suite, q in jobs:
+        ep = os.path.join(d, f"{suite}{q or ''}.ndjson")
+        rc, o, e = sh(f"{FV} interop --suite {suite} {'--q %d' % q if q else ''} --seed {ctx.seed} --count {count} --events {ep}", cwd=d, timeout=1800)
+        if rc != 0 or "SUMMARY" not in o:
+            raise ToolError(f"fv interop failed for {suite}: {o[-300:]} {e[-300:]}")
+        n_ev, bad = run_trace_tlc(d, "TraceInterop", ep, extra_cfg=[f"CONSTANT Q = {q or 7}"])
+        ev = load_events(ep)
+        total += n_ev
+        seenk = set()
+        for (line, op, law) in bad:
+            key = f"{ctx.pid}:{suite}:{op}:{law}"
+            if key in seenk:
+                continue
+            seenk.add(key)
+            x = ev[line - 1]
+            if op == "idu16":
+                x = {"op": "idu16", "q": x.get("q")}
+            ctx.violation(key, f"{suite}: {law}: {json.dumps(x)[:300]}", replay_obj={"suite": suite, "q": q, "seed": ctx.seed, "event": x})
+        os.remove(ep)
+    log(f"[{ctx.pid}] interop / identifier encoding: {total} events validated against TraceInterop")
+    ctx.cov["trace_events_validated"] += total
+    ctx.cov["interop_events"] = total
+
+
 def assume_stage(ctx, name, module, consts, timeout=900):
     """Constant-level obligations (ASSUMEs) decided by TLC; no behaviours, no replay."""
     d = os.path.join(ctx.dir, name)
